@@ -24,18 +24,19 @@ ASSUMPTIONS = [
     'on.field handlers are compared for update causes only (their selection for other causes is not documented)',
     'L2: the API-server model and virtual time of kopfsim',
 ]
-BUDGET = {'quick': 6000, 'thorough': None}   # L1 combinations per shard (None = the whole slice)
+BUDGET = {'quick': 70000, 'thorough': None}   # L1 combinations per shard (None = the whole slice)
 L2_BUDGET = {'quick': 40, 'thorough': 600}
 
 PRESENT, ABSENT = '@present', '@absent'
-LABEL_CRITERIA = [None, 'a', PRESENT, ABSENT, '@cb:isa', '@cb:isnone']
+# (falsy literals are legal criteria and legal values: spec.f == 0, a label with an empty value)
+LABEL_CRITERIA = [None, 'a', '', PRESENT, ABSENT, '@cb:isa', '@cb:isnone']
 ANN_CRITERIA = [None, 'a', ABSENT]
-VALUE_CRITERIA = ['nofield', 'fieldonly', 1, PRESENT, ABSENT, '@cb:is1', '@cb:isnone']
-OLDNEW_CRITERIA = [None, 1, 2, PRESENT, ABSENT, '@cb:is1', '@cb:isnone']
+VALUE_CRITERIA = ['nofield', 'fieldonly', 1, 0, PRESENT, ABSENT, '@cb:is1', '@cb:isnone']
+OLDNEW_CRITERIA = [None, 1, 2, 0, PRESENT, ABSENT, '@cb:is1', '@cb:isnone']
 WHEN = [None, '@cb:true', '@cb:false']
-LABEL_STATES = [None, 'a', 'b']
+LABEL_STATES = [None, 'a', 'b', '']
 ANN_STATES = [None, 'a']
-FIELD_STATES = [None, 1, 2]
+FIELD_STATES = [None, 1, 2, 0]
 CHANGING = ['create', 'update', 'delete', 'resume', 'field']
 OTHER = ['event', 'daemon', 'timer', 'index']
 _ABS = object()
@@ -209,8 +210,8 @@ def real_match(decl, state, cause_kind):
 
 
 # ------------------------------------------------------------------------------------------ L1 space
-def l1_space():
-    """Yields (decl, state, cause_kind) — the complete bounded product."""
+def l1_decls():
+    """Yields (decl, cause_kinds) — every handler declaration of the bounded alphabet."""
     for kind in CHANGING + OTHER:
         upd = kind in ('update', 'field')
         value_opts = [(v, None, None) for v in VALUE_CRITERIA]
@@ -222,17 +223,51 @@ def l1_space():
         for labels, anns, (value, old, new), when, twice in itertools.product(LABEL_CRITERIA, ANN_CRITERIA, value_opts, WHEN, [False, True]):
             if twice and (labels is not None or anns is not None or when is not None):
                 continue       # the duplicate-registration dimension is explored on its own
-            decl = dict(kind=kind, labels=labels, annotations=anns, value=value, old=old, new=new, when=when, twice=twice)
-            for ck in cause_kinds:
-                olds = FIELD_STATES if ck in ('update', 'delete', 'resume') else [None]
-                others = [False, True] if ck == 'update' else [False]
-                inits = [False, True] if kind == 'resume' or ck == 'resume' else [False]
-                for label, ann, newv, oldv, other, init in itertools.product(LABEL_STATES, ANN_STATES, FIELD_STATES, olds, others, inits):
-                    if ck == 'update' and oldv == newv and not other:
-                        continue     # not an update at all
-                    if ck == 'resume' and (oldv != newv or not init):
-                        continue     # resume = nothing changed at first sight
-                    yield decl, dict(label=label, ann=ann, new=newv, old=oldv, other_changed=other, initial=init), ck
+            yield dict(kind=kind, labels=labels, annotations=anns, value=value, old=old, new=new, when=when, twice=twice), cause_kinds
+
+
+_STATES = {}
+
+
+def l1_states(kind, ck):
+    """Every (object state, old state) of the bounded alphabet for a handler kind and a cause kind."""
+    key = (kind == 'resume', ck)
+    if key not in _STATES:
+        out = []
+        olds = FIELD_STATES if ck in ('update', 'delete', 'resume') else [None]
+        others = [False, True] if ck == 'update' else [False]
+        inits = [False, True] if kind == 'resume' or ck == 'resume' else [False]
+        for label, ann, newv, oldv, other, init in itertools.product(LABEL_STATES, ANN_STATES, FIELD_STATES, olds, others, inits):
+            if ck == 'update' and oldv == newv and not other:
+                continue     # not an update at all
+            if ck == 'resume' and (oldv != newv or not init):
+                continue     # resume = nothing changed at first sight
+            out.append(dict(label=label, ann=ann, new=newv, old=oldv, other_changed=other, initial=init))
+        _STATES[key] = out
+    return _STATES[key]
+
+
+def l1_space():
+    """Yields (decl, state, cause_kind) — the complete bounded product."""
+    for decl, cause_kinds in l1_decls():
+        for ck in cause_kinds:
+            for state in l1_states(decl['kind'], ck):
+                yield decl, state, ck
+
+
+def l1_size():
+    return sum(len(l1_states(decl['kind'], ck)) for decl, cks in l1_decls() for ck in cks)
+
+
+def mix(*xs):
+    """A fixed integer hash (selection of a sample must not follow the enumeration order of the product: a stride aliases with it)."""
+    h = 0x811C9DC5
+    for x in xs:
+        h = ((h ^ (x & 0xFFFFFFFF)) * 0x9E3779B1) & 0xFFFFFFFF
+        h ^= h >> 15
+        h = (h * 0x85EBCA6B) & 0xFFFFFFFF
+        h ^= h >> 13
+    return h
 
 
 def nontrivial_l1(decl, state, ck, expected):
@@ -283,7 +318,7 @@ def l2_scenarios(draw):
             h['labels'] = {'on': draw(st.sampled_from(['yes', PRESENT, ABSENT]))}
         if 'field' in crit:
             h['field'] = 'spec.f'
-            v = draw(st.sampled_from(['fieldonly', 1, 2, PRESENT]))
+            v = draw(st.sampled_from(['fieldonly', 1, 2, 0, PRESENT]))
             if v != 'fieldonly':
                 h['value'] = v
         if crit == 'when':
@@ -474,22 +509,35 @@ def run_shard(ctx):
     known_ids = set(ctx['known_ids'])
     out = dict(evaluations=0, nontrivial=set(), classes={}, samples=[], violations=[], known={}, harness_errors=[])
     limit = ctx['examples'] or BUDGET[tier]
-    total = sum(1 for _ in l1_space())
-    if tier == 'thorough' and ctx['examples'] is None:
-        step, offset = nshards, shard
-    else:
-        per_shard = limit or 6000
-        step = max(1, total // max(1, per_shard * nshards)) * nshards
-        offset = (shard + 7919 * ctx['base_seed']) % step
+    total = l1_size()
+    exhaustive = tier == 'thorough' and ctx['examples'] is None
+    # the quick tier evaluates a pseudo-random sample: 1 of `dd` declarations (by a hash of its number and the seed), and for each
+    # of them 1 of 4 (cause, state) combinations; the thorough tier evaluates everything.
+    n_decls = sum(1 for _ in l1_decls())
+    per_decl = total / n_decls
+    dd = max(1, int(n_decls * per_decl / 4 / max(1, (limit or 6000) * nshards)))
     seen_sigs = set()
-    for i, (decl, state, ck) in enumerate(l1_space()):
-        if i % step != offset:
-            continue
+
+    def selected():
+        for j, (decl, cks) in enumerate(l1_decls()):
+            if j % nshards != shard:
+                continue
+            if not exhaustive and mix(j, ctx['base_seed']) % dd != 0:
+                continue
+            k = 0
+            for ck in cks:
+                for state in l1_states(decl['kind'], ck):
+                    k += 1
+                    if exhaustive or mix(j, k, ctx['base_seed']) % 4 == 0:
+                        yield decl, state, ck
+    for decl, state, ck in selected():
         sc = {'decl': decl, 'state': state, 'cause': ck}
         res = run_case(sc)
         out['evaluations'] += 1
         key = f'L1-kind:{decl["kind"]}'
         out['classes'][key] = out['classes'].get(key, 0) + 1
+        if 0 in (decl['value'], decl['old'], decl['new']) or decl['labels'] == '':
+            out['classes']['L1-falsy-criterion'] = out['classes'].get('L1-falsy-criterion', 0) + 1
         if res.nontrivial:
             out['nontrivial'].add(digest(sc))
             out['classes']['nontrivial'] = out['classes'].get('nontrivial', 0) + 1
@@ -505,7 +553,7 @@ def run_shard(ctx):
             if v['sig'] not in seen_sigs:
                 seen_sigs.add(v['sig'])
                 out['violations'].append({'scenario': sc, 'violations': [v], 'sig': v['sig']})
-    out['extra'] = {'l1_space_size': total, 'exhaustive': tier == 'thorough' and ctx['examples'] is None}
+    out['extra'] = {'l1_space_size': total, 'exhaustive': exhaustive}
     out['nontrivial'] = sorted(out['nontrivial'])
     # L2
     n2 = L2_BUDGET[tier] if ctx['examples'] is None else max(2, ctx['examples'] // 500)
